@@ -179,7 +179,8 @@ fn check(seq: &Seq, as_call: bool, st: &mut Stats) {
     st.evaluations += 1;
     let mixed = seq.seps.iter().any(|s| *s) && seq.seps.iter().any(|s| !*s);
     if mixed {
-        st.distinct("nontrivial", &src);
+        // every source is enumerated exactly once
+        st.count("nontrivial-distinct");
     }
     // reference run
     let mut rc = RCtx::new();
@@ -238,14 +239,58 @@ fn check(seq: &Seq, as_call: bool, st: &mut Stats) {
         },
     };
     st.evaluations += 1;
+    let log_real: Vec<String> = log.lock().unwrap().iter().map(|v| v.key()).collect();
     st.count(if real.is_ok() { "evaluated-ok" } else { "evaluated-err" });
     st.distinct("outcomes", &res_key(&real));
     if rc.unclaimed {
         return;
     }
+    // the shared-context form evaluates the same elements in the same order (and fails at the first
+    // assignment it applies)
+    {
+        let mut ri = RCtx::new();
+        ri.funcs.insert("f".into(), RFn::Identity);
+        let iref = ri.eval(&ast, Mode::Immutable);
+        log.lock().unwrap().clear();
+        let mut ci = HCtx::new();
+        let l3 = log.clone();
+        ci.set_function(
+            "f".into(),
+            Function::new(move |a| {
+                l3.lock().unwrap().push(RV::from_ev(a));
+                Ok(a.clone())
+            }),
+        )
+        .unwrap();
+        match guarded(|| tree.eval_with_context(&ci)) {
+            Err(p) => {
+                st.violation(mk("panic", describe(&iref), format!("panic at {}: {}", p.location, p.message)));
+                return;
+            },
+            Ok(ireal) => {
+                st.evaluations += 1;
+                let ok = ri.unclaimed
+                    || result_matches(&iref, &ireal)
+                    || match (&ri.opassign_alt, &ireal) {
+                        (Some(alt), Err(e)) => err_matches(alt, e),
+                        _ => false,
+                    };
+                let ilog: Vec<String> = log.lock().unwrap().iter().map(|v| v.key()).collect();
+                let ilog_ref: Vec<String> = ri.log.iter().map(|(_, v)| v.key()).collect();
+                if !ok || (!ri.unclaimed && ilog != ilog_ref) {
+                    st.violation(mk(
+                        "shared-context-value-mismatch",
+                        format!("eval_with_context: {} with call log {:?}", describe(&iref), ilog_ref),
+                        format!("{} with call log {:?}", res_dbg(&ireal), ilog),
+                    ));
+                    return;
+                }
+            },
+        }
+    }
+    // restore the mutable run's log for the comparison below
     let vars_ref: Vec<(String, String)> = rc.vars.iter().map(|(k, v)| (k.clone(), v.key())).collect();
     let vars_real = observe_vars(&c);
-    let log_real: Vec<String> = log.lock().unwrap().iter().map(|v| v.key()).collect();
     let log_ref: Vec<String> = rc.log.iter().map(|(_, v)| v.key()).collect();
     if !result_matches(&rref, &real) || vars_ref != vars_real || log_real != log_ref {
         st.violation(mk(
@@ -314,14 +359,14 @@ pub fn run(cfg: &Cfg) -> Report {
         stats.sample(json!({"source": s, "tree": t.as_ref().map(|t| node_to_nt(t).show()).map_err(|e| format!("{:?}", e)), "value": format!("{:?}", evalexpr::eval(s))}));
     }
     let guards = vec![
-        ("sequences mixing `,` and `;` were enumerated".to_string(), stats.distinct_len("nontrivial") > 100),
+        ("sequences mixing `,` and `;` were enumerated".to_string(), stats.get("nontrivial-distinct") > 100),
         ("some evaluations succeeded and some failed".to_string(), stats.get("evaluated-ok") > 0 && stats.get("evaluated-err") > 0),
     ];
     Report {
         property: ID,
         level: "exploration",
-        rule: format!("every separator skeleton in {{',', ';'}}^n, n <= {n_simple}, with every filling of the n+1 slots from {{absent, literal, `a = k`, read of a, `a += k`}}; the same for n <= {n_call} as the argument of a recording function f(...); for n <= {n_group} every skeleton with one slot (each position) holding each of {ngroups} parenthesised nested sequences (depth <= 2) and the other slots from {{absent, literal, assignment}}; and skeletons over {{absent, `()`, literal}}. Non-trivial = mixes both separators; distinct by source text"),
-        nontrivial_set: "nontrivial",
+        rule: format!("every separator skeleton in {{',', ';'}}^n, n <= {n_simple}, with every filling of the n+1 slots from {{absent, literal, `a = k`, read of a, `a += k`}}; the same for n <= {n_call} as the argument of a recording function f(...); for n <= {n_group} every skeleton with one slot (each position) holding each of {ngroups} parenthesised nested sequences (depth <= 2) and the other slots from {{absent, literal, assignment}}; and skeletons over {{absent, `()`, literal}}. Non-trivial = mixes both separators; each source is enumerated once"),
+        nontrivial_set: "counter:nontrivial-distinct",
         exhaustive: true,
         bound_completed: format!("{n_simple} separators (simple elements), {n_group} with nested groups"),
         assumptions: vec![
